@@ -266,7 +266,7 @@ def key_provenance(ctx):
             if not (isinstance(n, ast.Subscript) and isinstance(n.ctx, ast.Load)):
                 continue
             base = un(n.value)
-            is_lookup = base == "self" or (isinstance(n.value, ast.Call) and (call_name(n.value) or "") == "getattr"
+            is_lookup = base == params(fn)[0] or (isinstance(n.value, ast.Call) and (call_name(n.value) or "") == "getattr"
                                            and "algebra" in un(n.value))
             if not is_lookup:
                 continue
